@@ -32,6 +32,7 @@ var c05Spellings = map[string]*vSpelling{
 	"backslash": {tag: map[string]string{"t2": `t\2`, "t1": `a\b\\c`}},
 	"unicode":   {tag: map[string]string{"t1": "größe", "t2": "日本 語"}, sep: []string{" ", "   "}},
 	"punct":     {tag: map[string]string{"t1": "k=v;x", "t2": "'q'"}},
+	"opteq":     {opt: map[string]string{"strip=/x": "strip=/v=1 prepend=/p=q= host=dst flag"}, sep: []string{" ", "\t"}},
 }
 
 func c05Features(c *c05Case, class, spelling, path string) map[string]any {
@@ -110,7 +111,7 @@ func TestVerifC05(t *testing.T) {
 	var wg sync.WaitGroup
 	var sampleMu sync.Mutex
 	var samples []string
-	spNames := []string{"spaces", "backslash", "unicode", "punct"}
+	spNames := []string{"spaces", "backslash", "unicode", "punct", "opteq"}
 	for w := 0; w < runtime.NumCPU(); w++ {
 		wg.Add(1)
 		go func() {
